@@ -146,34 +146,41 @@ def match_known(known, pid, unit, f):
     return None
 
 
-def ensure_replay_binary(repo):
-    """Build the native replay driver against `repo` (the real crate). Returns path or None."""
-    src = os.path.join(VERIF, "replay")
+def ensure_replay_binary(repo, crate="replay"):
+    """Build a native replay driver against `repo` (the real crate). `crate`: "replay" (default features) or
+    "replay_store" (features ndarray + zarr). Returns (path, error)."""
+    src = os.path.join(VERIF, crate)
+    binname = {"replay": "nuts-replay", "replay_store": "nuts-replay-store"}[crate]
     cache = os.environ.get("VERIF_CACHE", "/root/.cache/nuts-verif")
+    target = os.path.join(cache, crate.replace("_", "-") + "-target")
     if os.path.realpath(repo) == "/repo":
         work = src
-        target = os.path.join(cache, "replay-target")
     else:
         h = hashlib.sha1(os.path.realpath(repo).encode()).hexdigest()[:10]
-        work = os.path.join(cache, f"replay-src-{h}")
-        target = os.path.join(cache, "replay-target")
+        work = os.path.join(cache, f"{crate}-src-{h}")
         shutil.rmtree(work, ignore_errors=True)
         shutil.copytree(src, work, ignore=shutil.ignore_patterns("target"))
         ct = os.path.join(work, "Cargo.toml")
         with open(ct) as f:
             t = f.read()
         with open(ct, "w") as f:
-            f.write(t.replace('path = "/repo"', f'path = "{os.path.realpath(repo)}"'))
+            f.write(t.replace('path = "/repo', f'path = "{os.path.realpath(repo)}'))
+    if not os.path.exists(os.path.join(work, "Cargo.lock")) and os.path.exists("/repo/Cargo.lock"):
+        shutil.copy("/repo/Cargo.lock", os.path.join(work, "Cargo.lock"))
     env = dict(os.environ, CARGO_NET_OFFLINE="true", CARGO_TARGET_DIR=target)
     p = subprocess.run(["cargo", "build", "--offline", "--release"], cwd=work, env=env, capture_output=True, text=True)
     if p.returncode != 0:
         return None, p.stderr[-3000:]
-    return os.path.join(target, "release", "nuts-replay"), ""
+    return os.path.join(target, "release", binname), ""
 
 
 def run_replay_search(cmd_args, seed):
-    """Run the native replay driver (real code). Returns (found_failing_input, output)."""
-    binp, err = ensure_replay_binary(core.REPO)
+    """Run a native replay driver (real code). `cmd_args[0] == "@store"` selects the replay_store crate.
+    Returns (found_failing_input, output)."""
+    crate = "replay"
+    if cmd_args and cmd_args[0] == "@store":
+        crate, cmd_args = "replay_store", cmd_args[1:]
+    binp, err = ensure_replay_binary(core.REPO, crate)
     if binp is None:
         return None, "replay driver did not build: " + err
     env = dict(os.environ, VERIF_SEED=str(seed))
@@ -384,7 +391,7 @@ def run_property(pid, tier, seed, t0, pin=False):
             names = sorted({ob["name"] for ob in u.obs if ob["kind"] in ("fn", "lemma") and ob["success"]})
             with open(baseline_path(u.unit, u.model), "w") as f:
                 shape = {fn["key"]: [fn.get("closures_without_contract", 0), fn.get("loops", 0)] for fn in u.gen.fns}
-                json.dump({"obligations": names, "anchor_lines": u.gen.anchor_lines, "closure_sigs": u.gen.closure_sigs, "shape": shape}, f, indent=1)
+                json.dump({"obligations": names, "anchor_lines": u.gen.anchor_lines, "closure_sigs": u.gen.closure_sigs, "loop_sigs": u.gen.loop_sigs, "shape": shape}, f, indent=1)
         undecided = [x for x in undecided if "allow-list" not in x]
 
     # ---- E2 Kani (bounded / complete harnesses)
@@ -527,10 +534,21 @@ def run_property(pid, tier, seed, t0, pin=False):
     if n_ob == 0:
         cov["obligations"] = max(1, n_ob)
         cov["discharged"] = 0 if rc else 1
+    if level == "bounded":
+        # bounded stand-in (Kani harnesses with a stated bound): never reported at proof level
+        level = "other"
+        done = [b for b in bounded if b["result"] == "SUCCESS"]
+        cov["explanation"] = (f"BOUNDED model checking, not a proof: {len(done)} of {len(bounded)} Kani/CBMC harnesses of this tier verified; each "
+                              "harness fixes the size stated in its `bound` and leaves every value symbolic (all bit patterns); see bounded_checks. "
+                              "Nothing is claimed beyond the listed bounds.")
+        cov["samples"] = [{"harness": b["harness"], "bound": b["bound"], "result": b["result"], "time_s": b["time_s"]} for b in bounded[:4]] or cov["samples"]
+        cov["evaluations"] = len(bounded)
+        cov["distinct_nontrivial"] = len({b["harness"] for b in done})
+        cov["rule"] = "one evaluation = one Kani harness run to completion; distinct = distinct harness names that verified"
     doc = {"property_id": pid, "tier": tier, "seed": seed, "level": level if rc != 2 else "other",
            "coverage": cov, "assumptions": assumptions, "wall_s": round(time.time() - t0, 2), "violations": nviol}
     if rc == 2:
-        cov["explanation"] = "UNDECIDED: " + " | ".join(undecided)[:1500]
+        cov["explanation"] = "UNDECIDED: " + " | ".join(undecided)[:1500] + (" || " + cov["explanation"] if cov.get("explanation") else "")
     write_evidence(pid, doc)
     print(f"property {pid}: {n_dis}/{n_ob} obligations discharged, {len(bounded)} bounded checks, "
           f"vacuity {cov['vacuity']['ensures_false_rejected']}/{cov['vacuity']['ensures_false_checked']}, "
